@@ -2,8 +2,9 @@ CFG = {
     "jobs": lambda tier: [
         J("prod", "witness --only C20", needs_repo_bins=["mla-bindings-c"]),
         J("prod", "c20", needs_repo_bins=["mla-bindings-c"], imports="Base Stream Inst Run RunC20", shard=30),
+        J("prod", "c20r", needs_repo_bins=["mla-bindings-c"], imports="Base Stream Inst Run RunC20 RunC20Read", shard=40),
     ],
-    "run_modules": ["RunC20"],
+    "run_modules": ["RunC20", "RunC20Read"],
     "rule": "programs of C calls executed against libmla.so (cdylib of /repo/bindings/C, dlopen) each in a child process: "
             "(1,2) C01-style writing plans (1-4 files, 0-7 interleaved pieces, boundary sizes capped at 5 KB, every sixth at 140 KB, levels {0,1,5,9,11}, one or "
             "three recipients) through config/add_public_keys/archive_new/file_new/append/flush/file_close/close with write callbacks accepting "
